@@ -18,8 +18,10 @@ import (
 const selfTestSrc = `package zz
 
 import (
+	"bytes"
 	"sort"
 	"strings"
+	"sync"
 )
 
 type T struct{ Headers, Cookies []string; A, B, C, D string }
@@ -219,6 +221,28 @@ func DupR(r *R) *R {
 	return d
 }
 
+type N struct{ Kids []*N }
+
+func fLateGuard(n *N, seen map[*N]bool) {
+	if seen[n] {
+		return
+	}
+	for _, k := range n.Kids {
+		fLateGuard(k, seen)
+	}
+	seen[n] = true
+}
+
+var pool = sync.Pool{New: func() any { return &bytes.Buffer{} }}
+
+func sink([]byte) {}
+func fAfterPut() {
+	buf := pool.Get().(*bytes.Buffer)
+	dump := buf.Bytes()
+	pool.Put(buf)
+	sink(dump)
+}
+
 func fSortCond(m map[string]int) []string {
 	var keys []string
 	for k := range m {
@@ -276,6 +300,6 @@ func LintSelfTest() (map[string]bool, error) {
 }
 
 // SelfTestKinds lists the lint kinds that must fire in the self-test.
-var SelfTestKinds = []string{"dupbranch", "selfsearch", "twinguard", "lazyinit", "shallow", "var", "memo", "recursion", "slice", "flag", "break", "swap", "guardfield", "retryonce", "guardvar", "rawname", "invariant", "mapstore", "selfcopy", "parity", "maporder"}
+var SelfTestKinds = []string{"lateguard", "afterput", "dupbranch", "selfsearch", "twinguard", "lazyinit", "shallow", "var", "memo", "recursion", "slice", "flag", "break", "swap", "guardfield", "retryonce", "guardvar", "rawname", "invariant", "mapstore", "selfcopy", "parity", "maporder"}
 
 func init() { sort.Strings(SelfTestKinds) }
